@@ -145,6 +145,13 @@ func (c *Conn) TakeAll() []OutF {
 	return o
 }
 
+// Peek returns the captured writes without removing them.
+func (c *Conn) Peek() []OutF {
+	c.mu.Lock()
+	defer c.mu.Unlock()
+	return append([]OutF{}, c.all...)
+}
+
 // Take removes and returns the writes captured so far.
 func (c *Conn) Take() []Out {
 	c.mu.Lock()
